@@ -220,7 +220,16 @@ def step (s : St) (ws : List String) : St × List String :=
     match handle 'v' v, handle 'b' b, parseHex hex with
     | some i, some bi, some bs =>
       if bi < w.brefs.length then
-        match w.backfill i (w.brefs.getD bi none) bs with
+        let tok := w.brefs.getD bi none
+        -- an own, still-pending placeholder with a source of the wrong size: the harness catches
+        -- this documented panic and keeps going; `backfill_or_panic` checks the size first, so
+        -- nothing has changed
+        let wrongSize : Bool := match tok, w.iov i with
+          | some (key, info), some v => info.len ≠ bs.length && v.backrefs.any (fun e => e == (key, info))
+          | _, _ => false
+        if wrongSize then ok s w ["R panicked"] (touched := some i)
+        else
+        match w.backfill i tok bs with
         | some w' => ok s w' (touched := some i)
         | none => panic s
       else (s, ["bad-op"])
